@@ -95,19 +95,40 @@ def check_gate(w, rep, f, name, mod):
     ret = O["error_code"].s()
     cond = cm._cmp("eq", ret, cm.ZERO)
     xo, Wo = f.outs[0], f.outs[1]
+    # every rejection leaf of the error-code tree: resolve the tree's conditions along that path, the error code becomes
+    # the leaf constant, every test on the code folds, and the outputs must be the function's own inputs
+    rej_paths = [(path, leaf) for path, leaf in leaves(ret) if leaf.const_value() is not None and leaf.const_value() != 0]
+    if not rej_paths:
+        rep.incomplete("C11.gate", "%s rejection paths" % name, "no constant non-zero error-code leaf found", where=W)
     for nm, out, inp in (("state", xo, I["x"]), ("covariance factor", Wo, I["W"])):
-        rej = assign_ites(out, {cond: False})
-        still = [c for c in ite_conditions(rej) if ret.atoms() & {a for a in all_atoms(c)}] if False else []
-        v, d = decide_mat(rej, inp)
-        inst = "%s: %s returned unchanged when error_code != 0" % (name, nm)
-        if v == EQUAL:
-            gated = all((out.cells[i][j] == inp.cells[i][j]) or (out.cells[i][j].single_atom() is not None and out.cells[i][j].single_atom().kind == "ite" and out.cells[i][j].single_atom().key[0] == cond)
-                        for i in range(out.r) for j in range(out.c))
-            rep.check("C11.gate", inst, gated, "output is not, cell by cell, if_else(error_code == 0, new, old): something is written after the gate", where=W)
-        elif v == DIFFERENT:
-            rep.fail("C11.gate", inst, "a rejected correction does not return its input: %s" % d, where=W)
-        else:
-            rep.incomplete("C11.gate", inst, "cannot decide: %s" % d, where=W)
+        for path, leaf in rej_paths:
+            code = leaf.const_value()
+            asg = dict(path)
+            rej = assign_ites(out, asg)
+            # error-code tests that did not fold structurally (the code is now the constant `code`)
+            def fold(a, code=code):
+                if a.kind in ("eq", "ne") and isinstance(a.key[0], Poly):
+                    for x, y in ((a.key[0], a.key[1]), (a.key[1], a.key[0])):
+                        if x == ret and y.const_value() is not None:
+                            t = (y.const_value() == code)
+                            return Poly.const(int(t if a.kind == "eq" else not t))
+                return None
+            rej = MatVal(rej.r, rej.c, [[deep_subs(p, fold) if p.t else p for p in row] for row in rej.cells], rej.kind)
+            v, d = decide_mat(rej, inp)
+            inst = "%s: %s returned unchanged when error_code = %s" % (name, nm, code)
+            if v == EQUAL:
+                rep.ok("C11.gate", inst)
+            elif v == DIFFERENT:
+                rep.fail("C11.gate", inst, "a correction rejected with code %s does not return its input %s: %s" % (code, nm, d), where=W)
+            else:
+                from ..decide import generators, normal
+                gi = set().union(*[generators(normal(p)) for p in inp.flat()]) if inp.flat() else set()
+                rep.fail("C11.gate", inst, "a correction rejected with code %s returns a value that still depends on the measurement update instead of its input %s: %s" % (code, nm, d), where=W) \
+                    if not gi else rep.incomplete("C11.gate", inst, "cannot decide: %s" % d, where=W)
+        gated = all((out.cells[i][j] == inp.cells[i][j]) or (out.cells[i][j].single_atom() is not None and out.cells[i][j].single_atom().kind == "ite")
+                    for i in range(out.r) for j in range(out.c))
+        rep.check("C11.gate", "%s: %s is, cell by cell, a selection between the update and the input" % (name, nm), gated,
+                  "an output cell is not an if_else selection: something is written after the gate", where=W)
     # error-code tree: 0 exactly once, at the all-conditions-false leaf; other leaves distinct non-zero constants
     check_code_tree(rep, name, ret, W)
     bad = guarded_asin(MatVal(1, len(f.outs), [[o.cells[0][0] if o.r * o.c == 1 else Poly() for o in f.outs]]))
@@ -150,6 +171,33 @@ def check_initialize(w, rep, f):
     rep.check("C11.gate", "initialize: x0 is gated by the returned error code (zero state on failure)", all(c.const_value() == 0 for c in rej.flat()),
               "x0 is not selected by error_code == 0", where=W)
     check_code_tree(rep, "initialize", ret, W)
+    # TRIAD degeneracy: the construction divides by |n3 x Bh| (n3 = -g/|g|, Bh = B/|B|); some rejection test must bound
+    # exactly that quantity away from zero, otherwise parallel OR anti-parallel gravity and field give 0/0 = NaN with code 0
+    I = dict(zip(f.in_names, f.ins))
+    if "g_b" in I and "B_b" in I:
+        gb, Bb = I["g_b"], I["B_b"]
+        n3 = cm.ew(cm.neg(gb), cm.norm_2(gb), cm.pdiv)
+        Bh = cm.ew(Bb, cm.norm_2(Bb), cm.pdiv)
+        S = cm.norm_2(cm.cross(n3, Bh)).s()
+        from ..decide import canon
+        Sc = canon(S)
+        found = False
+        for path, leaf in leaves(ret):
+            for c, flag in path:
+                a = c.single_atom()
+                if a is None or a.kind not in ("lt", "le"):
+                    continue
+                lhs, rhs = a.key
+                iv = cm.pi_interval(rhs)
+                if iv is None or iv[0] <= 0:
+                    continue
+                inner = lhs.single_atom()
+                cand = inner.key[0] if (inner is not None and inner.kind == "asin") else lhs
+                if canon(cand) == Sc:
+                    found = True
+        rep.check("C11.codes", "initialize: a rejection test bounds |n3 x B^| (the norm divided by) away from zero", found,
+                  "no rejection test of the form f(|(-g/|g|) x (B/|B|)|) < c: when gravity and field are parallel or anti-parallel the east axis is 0/0 and the state is NaN with error code 0",
+                  where=W)
     acc = assign_ites(x0, {cond: True})
     good, why = is_shadowed(w.sl(acc, 0, 3))
     rep.check("C11.valid", "initialize: returned MRP is shadow-switched (|r| <= 1)", good, "initial attitude is not passed through the shadow switch: %s" % why, where=W)
@@ -206,8 +254,8 @@ def run(w, rep, tier):
         check_initialize(w, rep, fs["initialize"])
     if "predict" in fs:
         check_predict(w, rep, fs["predict"], mod)
-    rep.floor("C11.gate", 5)
-    rep.floor("C11.codes", 3)
+    rep.floor("C11.gate", 9)
+    rep.floor("C11.codes", 4)
     rep.floor("C11.valid", 6)
     rep.undecided_clause("P+ <= P, finiteness of accepted corrections, fourth-order accuracy of the attitude beyond the RK4 order conditions (C10)")
     rep.undecided_clause("initialisation returns exactly the attitude that produced the measurements (TRIAD identity through Shepperd and MRP maps)")
